@@ -22,7 +22,7 @@ from typing import Any, Dict, List, Optional, Tuple
 
 import z3
 
-from engine import families, internmodel as im, par, parsertables as pt, report, symnum, work
+from engine import families, internmodel as im, par, parsertables as pt, report, robust, symnum, work
 from engine.symnum import SInt, explore, term
 
 PID = "C13"
@@ -214,7 +214,7 @@ sys.exit(0)
     for tx in sorted(texts):
         S.push()
         S.add(z3.Not(z3.InRe(z3.StringVal(tx), sym_re)))
-        r = str(S.check())
+        r, _ = robust.check(S, 20000)
         S.pop()
         rep.queries += 1
         if r != "unsat":
